@@ -23,7 +23,7 @@ by_round = {}
 for d in sorted(glob.glob('/verif/seeded/*')):
     name = os.path.basename(d)
     suffix = name.split('_', 1)[1]
-    r = suffix if suffix in ('a', 'b', 'c', 'd', 'e') else 'other'
+    r = suffix if suffix in ('a', 'b', 'c', 'd', 'e', 'f') else 'other'
     k = by_round.setdefault(r, [0, 0])
     k[0] += 1
     if name in missed:
